@@ -13,34 +13,51 @@ open Sf Sf.Aiff
 
 /-! ### the 80-bit sample rate -/
 
-/-- every rate below 2^30 survives `uint2tenbytefloat` followed by `tenbytefloat2int` -/
-theorem aiff_rate_roundtrip (r : Nat) (h1 : 1 ≤ r) (h2 : r < 2 ^ 30) : ten2int (int2ten r) = r :=
-  ten2int_int2ten_small r h1 h2
-
-example : ten2int (int2ten 44100) = 44100 ∧ ten2int (int2ten 1) = 1 ∧ ten2int (int2ten (2 ^ 30 - 1)) = 2 ^ 30 - 1 := by decide
-
 /-- what C04 asks of AIFF: every rate a caller may pass is reported back -/
 def aiff_rate_full : Prop := ∀ r : Nat, 1 ≤ r → r ≤ 0x7FFFFFFF → ten2int (int2ten r) = r
 
-/-- the class of the known finding KF-AIFF-RATE-2P30 -/
+/-- **aiff_rate_roundtrip** (full strength since the repair of KF-AIFF-RATE-2P30): every rate in [1, 2^31 − 1]
+    survives `uint2tenbytefloat` followed by `tenbytefloat2int` -/
+theorem aiff_rate_roundtrip (r : Nat) (h1 : 1 ≤ r) (h2 : r ≤ 0x7FFFFFFF) : ten2int (int2ten r) = r :=
+  ten2int_int2ten_exact r h1 (by omega)
+
+theorem aiff_rate_full_holds : aiff_rate_full := aiff_rate_roundtrip
+
+example : ten2int (int2ten 44100) = 44100 ∧ ten2int (int2ten 1) = 1 ∧ ten2int (int2ten (2 ^ 30)) = 2 ^ 30 ∧
+    ten2int (int2ten (2 ^ 31 - 1)) = 2 ^ 31 - 1 ∧ int2ten (2 ^ 30) = [0x40, 0x1D, 0x80, 0, 0, 0, 0, 0, 0, 0] := by decide
+
+/-- the class of the repaired finding KF-AIFF-RATE-2P30 -/
 def KF.rateTooBig (r : Nat) : Prop := 2 ^ 30 ≤ r
 instance (r : Nat) : Decidable (KF.rateTooBig r) := by unfold KF.rateTooBig; infer_instance
 
-/-- from 2^30 on the writer gives up and every rate re-opens as 800000000 -/
-theorem aiff_rate_collapse (r : Nat) (h : KF.rateTooBig r) : ten2int (int2ten r) = 800000000 :=
-  ten2int_int2ten_big r h
+/-- the old rule (`int2tenOld`, `ten2intOld`): the statement over the whole range -/
+def aiff_rate_full_old : Prop := ∀ r : Nat, 1 ≤ r → r ≤ 0x7FFFFFFF → ten2intOld (int2tenOld r) = r
 
-/-- the full statement fails: 2^30 Hz is the witness -/
-theorem aiff_rate_full_fails : ¬ aiff_rate_full := by
+/-- old rule: from 2^30 on the writer gave up and every rate re-opened as 800000000 -/
+theorem aiff_rate_collapse_old_rule (r : Nat) (h : KF.rateTooBig r) : ten2intOld (int2tenOld r) = 800000000 :=
+  ten2intOld_int2tenOld_big r h
+
+/-- old rule: the full statement failed, 2^30 Hz is the witness -/
+theorem aiff_rate_full_fails_old_rule : ¬ aiff_rate_full_old := by
   intro h
   have := h (2 ^ 30) (by decide) (by decide)
   revert this; decide
 
-/-- …and holds outside exactly that class -/
-theorem aiff_rate_partial (r : Nat) (h1 : 1 ≤ r) (_h2 : r ≤ 0x7FFFFFFF) (hk : ¬ KF.rateTooBig r) : ten2int (int2ten r) = r :=
-  ten2int_int2ten_small r h1 (by unfold KF.rateTooBig at hk; omega)
+/-- old rule: it held outside exactly that class -/
+theorem aiff_rate_partial_old_rule (r : Nat) (h1 : 1 ≤ r) (_h2 : r ≤ 0x7FFFFFFF) (hk : ¬ KF.rateTooBig r) :
+    ten2intOld (int2tenOld r) = r :=
+  ten2intOld_int2tenOld_small r h1 (by unfold KF.rateTooBig at hk; omega)
 
-example : KF.rateTooBig (2 ^ 30) ∧ ¬ KF.rateTooBig (2 ^ 30 - 1) ∧ ten2int (int2ten (2 ^ 31 - 1)) = 800000000 := by decide
+/-- files of the old writer under the new reader: the rate was never stored (zero mantissa), it now reads as 0
+    and such a file is refused instead of being reported as 800000000 Hz -/
+theorem aiff_old_files_new_reader (r : Nat) (h : KF.rateTooBig r) : ten2int (int2tenOld r) = 0 := by
+  unfold int2tenOld
+  have h1 : ¬ r ≤ 1 := by unfold KF.rateTooBig at h; omega
+  have h2 : r ≥ 0x40000000 := by unfold KF.rateTooBig at h; omega
+  simp only [h1, h2, if_false, if_true]
+  decide
+
+example : KF.rateTooBig (2 ^ 30) ∧ ¬ KF.rateTooBig (2 ^ 30 - 1) ∧ ten2intOld (int2tenOld (2 ^ 31 - 1)) = 800000000 := by decide
 
 /-! ### closed files -/
 
@@ -63,15 +80,62 @@ theorem closedBytes_eq (c : Cfg) (k : Kind) (hwf : c.wf) (hk : kindOf c = some k
 
 /-- **aiff_reopen_info.**  For every accepted configuration and every session, under the FORM-size guard (the file
     is shorter than 2^32 bytes) the closed file re-opens with the requested channels, the format word of the
-    requested encoding and byte order, the rate `ten2int (int2ten sr)`, and
-    frames = (audio bytes + pad byte) / block width. -/
+    requested encoding and byte order, the requested rate, and frames = audio bytes / block width (the pad byte
+    after an odd byte count lies outside the SSND chunk and is not counted). -/
 theorem aiff_reopen_info (c : Cfg) (k : Kind) (hwf : c.wf) (hk : kindOf c = some k) (stale : Nat) (ops : List WOp)
     (hguard : (closedBytes c k stale ops).length < 2 ^ 32) :
     parse (closedBytes c k stale ops) =
-      .ok { ch := c.ch, fmt := c.fmtWord, sr := (ten2int (int2ten c.sr)).toNat,
-            frames := ((opsData ops).length + padLen (opsData ops).length) / c.bw } := by
+      .ok { ch := c.ch, fmt := c.fmtWord, sr := c.sr, frames := (opsData ops).length / c.bw } := by
   obtain ⟨i, _⟩ := run_inv c k hwf.1 hk ops _ (inv_open c k hwf.1 hk stale)
   have hb := closedBytes_eq c k hwf hk stale ops
+  rw [hb] at hguard ⊢
+  have hpad : (tailBytes (opsData ops).length).length ≤ 8 := by unfold tailBytes; split <;> simp
+  have hB : (opsData ops).length + 8 < 2 ^ 32 := by
+    simp only [List.length_append] at hguard
+    have h1 : (closedHdr c k (opsData ops).length (finalPeaks c k stale ops)).length = hdrLen c k := by
+      unfold closedHdr finalPeaks; exact hdrRaw_length c k hwf.1 hk _ _ _ _ i.pk
+    have : 54 ≤ hdrLen c k := by unfold hdrLen; split <;> omega
+    omega
+  have := parse_hdrRaw c k hwf hk ((opsData ops).length / c.bw)
+    ((hdrLen c k + (opsData ops).length + padLen (opsData ops).length : Nat) : Int) (finalPeaks c k stale ops) i.pk
+    (opsData ops) (tailBytes (opsData ops).length) hpad hB
+  rw [List.append_assoc]
+  have hsr : (ten2int (int2ten c.sr)).toNat = c.sr := by rw [aiff_rate_roundtrip c.sr hwf.2.2.2.1 hwf.2.2.2.2]; simp
+  rw [hsr] at this
+  exact this
+
+/-- **aiff_frames_exact.**  A session that stored N whole frames re-opens with exactly N frames, for every
+    encoding, channel count and N (one-byte mono encodings with an odd N included). -/
+theorem aiff_frames_exact (c : Cfg) (k : Kind) (hwf : c.wf) (hk : kindOf c = some k) (stale : Nat) (ops : List WOp) (N : Nat)
+    (hN : (opsData ops).length = N * c.bw) (hguard : (closedBytes c k stale ops).length < 2 ^ 32) :
+    parse (closedBytes c k stale ops) = .ok { ch := c.ch, fmt := c.fmtWord, sr := c.sr, frames := N } := by
+  obtain ⟨_, _, _, fbw, _⟩ := cfg_facts c k hwf.1 hk
+  have hbw : 0 < c.bw := Nat.mul_pos fbw hwf.2.1
+  rw [aiff_reopen_info c k hwf hk stale ops hguard, hN, Nat.mul_div_cancel _ hbw]
+
+/-! #### the tailer before the repair of KF-AIFF-ODD-PAD -/
+
+def closedBytesOld (c : Cfg) (k : Kind) (stale : Nat) (ops : List WOp) : List Byte :=
+  (closeOld c k (run c k (openW c k stale) ops)).bytes
+
+theorem closedBytesOld_eq (c : Cfg) (k : Kind) (hwf : c.wf) (hk : kindOf c = some k) (stale : Nat) (ops : List WOp) :
+    closedBytesOld c k stale ops =
+      closedHdrOld c k (opsData ops).length (finalPeaks c k stale ops) ++ opsData ops ++ tailBytes (opsData ops).length := by
+  obtain ⟨_, _, _, fbw, _⟩ := cfg_facts c k hwf.1 hk
+  have hbw : 0 < c.bw := Nat.mul_pos fbw hwf.2.1
+  obtain ⟨i, d⟩ := run_inv c k hwf.1 hk ops _ (inv_open c k hwf.1 hk stale)
+  have d' : (run c k (openW c k stale) ops).data = opsData ops := by rw [d]; simp [openW, writeHeader]
+  unfold closedBytesOld finalPeaks
+  rw [close_bytes_old c k hbw _ i, d']
+
+/-- old rule: the pad byte was inside the SSND chunk and counted: frames = (audio bytes + pad byte) / block width -/
+theorem aiff_reopen_info_old_rule (c : Cfg) (k : Kind) (hwf : c.wf) (hk : kindOf c = some k) (stale : Nat) (ops : List WOp)
+    (hguard : (closedBytesOld c k stale ops).length < 2 ^ 32) :
+    parse (closedBytesOld c k stale ops) =
+      .ok { ch := c.ch, fmt := c.fmtWord, sr := c.sr,
+            frames := ((opsData ops).length + padLen (opsData ops).length) / c.bw } := by
+  obtain ⟨i, _⟩ := run_inv c k hwf.1 hk ops _ (inv_open c k hwf.1 hk stale)
+  have hb := closedBytesOld_eq c k hwf hk stale ops
   rw [hb] at hguard ⊢
   have hpad : (tailBytes (opsData ops).length).length = padLen (opsData ops).length := by
     unfold tailBytes padLen; split <;> simp <;> omega
@@ -79,20 +143,23 @@ theorem aiff_reopen_info (c : Cfg) (k : Kind) (hwf : c.wf) (hk : kindOf c = some
     rw [List.length_append, hpad]
   have hB : (opsData ops ++ tailBytes (opsData ops).length).length + 8 < 2 ^ 32 := by
     simp only [List.length_append] at hguard hbody ⊢
-    have h1 : (closedHdr c k (opsData ops).length (finalPeaks c k stale ops)).length = hdrLen c k := by
-      unfold closedHdr finalPeaks; exact hdrRaw_length c k hwf.1 hk _ _ _ _ i.pk
+    have h1 : (closedHdrOld c k (opsData ops).length (finalPeaks c k stale ops)).length = hdrLen c k := by
+      unfold closedHdrOld finalPeaks; exact hdrRaw_length c k hwf.1 hk _ _ _ _ i.pk
     have : 54 ≤ hdrLen c k := by unfold hdrLen; split <;> omega
     omega
   have := parse_hdrRaw c k hwf hk (((opsData ops).length + padLen (opsData ops).length) / c.bw)
     ((hdrLen c k + (opsData ops).length + padLen (opsData ops).length : Nat) : Int) (finalPeaks c k stale ops) i.pk
-    (opsData ops ++ tailBytes (opsData ops).length) hB
+    (opsData ops ++ tailBytes (opsData ops).length) [] (by simp) hB
   rw [hbody] at this
   rw [List.append_assoc]
+  have hsr : (ten2int (int2ten c.sr)).toNat = c.sr := by rw [aiff_rate_roundtrip c.sr hwf.2.2.2.1 hwf.2.2.2.2]; simp
+  rw [hsr, List.append_nil] at this
+  unfold closedHdrOld
   exact this
 
-/-- the frame count of `aiff_reopen_info` against the number N of frames written: F = N, except that one-byte mono
-    encodings with an odd N get the pad byte counted as one more frame (the "at most one pad frame" of C04) -/
-theorem aiff_frames_bound (bw N : Nat) (hbw : 0 < bw) :
+/-- old rule: the frame count against the number N of frames written: F = N, except that one-byte mono encodings
+    with an odd N got the pad byte counted as one more frame -/
+theorem aiff_frames_bound_old_rule (bw N : Nat) (hbw : 0 < bw) :
     let F := (N * bw + padLen (N * bw)) / bw
     N ≤ F ∧ F ≤ N + 1 ∧ (bw ≠ 1 → F = N) ∧ (N % 2 = 0 → F = N) := by
   intro F
@@ -124,21 +191,25 @@ theorem aiff_frames_bound (bw N : Nat) (hbw : 0 < bw) :
 def exCfg : Cfg := ⟨0x02, 2, 2, 44100⟩
 def exKind : Kind := ⟨true, mk4 "twos", false⟩
 def exOps : List WOp := [.write [0, 1, 0, 2] [] false, .update, .write [0, 3, 0, 4, 0, 5, 0, 6] [] true]
-/-- an odd-length µ-law mono session: 3 bytes of audio, a pad byte, 4 frames reported -/
+/-- an odd-length µ-law mono session: 3 bytes of audio, a pad byte, 3 frames reported -/
 def exU : Cfg := ⟨0x10, 0, 1, 8000⟩
 def exUKind : Kind := ⟨true, mk4 "ulaw", false⟩
 example : exCfg.wf ∧ kindOf exCfg = some exKind ∧ (closedBytes exCfg exKind 99 exOps).length = 84 ∧
     parse (closedBytes exCfg exKind 99 exOps) = .ok ⟨2, 0x20020002, 44100, 3⟩ := by decide +kernel
 example : exU.wf ∧ kindOf exU = some exUKind ∧ (closedBytes exU exUKind 0 [.write [1, 2, 3] [] false]).length = 76 ∧
-    parse (closedBytes exU exUKind 0 [.write [1, 2, 3] [] false]) = .ok ⟨1, 0x020010, 8000, 4⟩ := by decide +kernel
+    parse (closedBytes exU exUKind 0 [.write [1, 2, 3] [] false]) = .ok ⟨1, 0x020010, 8000, 3⟩ := by decide +kernel
+/-- old rule: the same session re-opened with 4 frames (3 written): `aiff_frames_exact` failed -/
+theorem aiff_frames_exact_fails_old_rule :
+    parse (closedBytesOld exU exUKind 0 [.write [1, 2, 3] [] false]) = .ok ⟨1, 0x020010, 8000, 4⟩ := by decide +kernel
 
 /-- **aiff_size_fields.**  For every N (no guard): the file length is header + audio + pad and even; the FORM size
-    field holds the low 32 bits of (length − 8) and the SSND size field the low 32 bits of (audio + pad + 8). -/
+    field holds the low 32 bits of (length − 8) and the SSND size field the low 32 bits of (audio + 8): the pad byte
+    follows the chunk, as IFF prescribes. -/
 theorem aiff_size_fields (c : Cfg) (k : Kind) (hwf : c.wf) (hk : kindOf c = some k) (stale : Nat) (ops : List WOp)
     (bytes : List Byte) (D : Nat) (hbytes : bytes = closedBytes c k stale ops) (hD : D = (opsData ops).length) :
     bytes.length = hdrLen c k + D + padLen D ∧ bytes.length % 2 = 0 ∧
     ofBE ((bytes.drop 4).take 4) = (bytes.length - 8) % 2 ^ 32 ∧
-    ofBE ((bytes.drop (hdrLen c k - 12)).take 4) = (D + padLen D + 8) % 2 ^ 32 := by
+    ofBE ((bytes.drop (hdrLen c k - 12)).take 4) = (D + 8) % 2 ^ 32 := by
   obtain ⟨i, _⟩ := run_inv c k hwf.1 hk ops _ (inv_open c k hwf.1 hk stale)
   have hb : bytes = closedHdr c k D (finalPeaks c k stale ops) ++ opsData ops ++ tailBytes D := by
     rw [hbytes, hD]; exact closedBytes_eq c k hwf hk stale ops
@@ -149,7 +220,7 @@ theorem aiff_size_fields (c : Cfg) (k : Kind) (hwf : c.wf) (hk : kindOf c = some
   have hev := hdrLen_even c k
   have h54 : 54 ≤ hdrLen c k := by unfold hdrLen; split <;> omega
   refine ⟨hlen, by rw [hlen]; unfold padLen; omega, ?_, ?_⟩
-  · obtain ⟨rest, hrest⟩ := hdrRaw_head c k ((D + padLen D) / c.bw) ((hdrLen c k + D + padLen D : Nat) : Int) ((D + padLen D : Nat) : Int) (finalPeaks c k stale ops)
+  · obtain ⟨rest, hrest⟩ := hdrRaw_head c k (D / c.bw) ((hdrLen c k + D + padLen D : Nat) : Int) ((D : Nat) : Int) (finalPeaks c k stale ops)
     have hd : bytes.drop 0 = mk4 "FORM" ++ (be32 (((hdrLen c k + D + padLen D : Nat) : Int) - 8) ++ (rest ++ (opsData ops ++ tailBytes D))) := by
       rw [List.drop_zero, hb]; unfold closedHdr; rw [hrest]; simp only [List.append_assoc]
     have d1 := drop_at hd mk4_length_FORM
@@ -157,14 +228,14 @@ theorem aiff_size_fields (c : Cfg) (k : Kind) (hwf : c.wf) (hk : kindOf c = some
     rw [this, List.take_left' (be32_length _), ofBE_be32, hlen]
     unfold wrapU
     omega
-  · obtain ⟨pre, hpre⟩ := hdrRaw_split c k ((D + padLen D) / c.bw) ((hdrLen c k + D + padLen D : Nat) : Int) ((D + padLen D : Nat) : Int) (finalPeaks c k stale ops)
+  · obtain ⟨pre, hpre⟩ := hdrRaw_split c k (D / c.bw) ((hdrLen c k + D + padLen D : Nat) : Int) ((D : Nat) : Int) (finalPeaks c k stale ops)
     have hprel : pre.length = hdrLen c k - 16 := by
       have h1 := congrArg List.length hpre
-      have h2 : (hdrRaw c k ((D + padLen D) / c.bw) ((hdrLen c k + D + padLen D : Nat) : Int) ((D + padLen D : Nat) : Int) (finalPeaks c k stale ops)).length = hdrLen c k := hhl
+      have h2 : (hdrRaw c k (D / c.bw) ((hdrLen c k + D + padLen D : Nat) : Int) ((D : Nat) : Int) (finalPeaks c k stale ops)).length = hdrLen c k := hhl
       rw [h2] at h1
       simp only [List.length_append, mk4_length_SSND, be32_length] at h1
       omega
-    have hd : bytes.drop (hdrLen c k - 16) = mk4 "SSND" ++ (be32 (((D + padLen D : Nat) : Int) + 8) ++
+    have hd : bytes.drop (hdrLen c k - 16) = mk4 "SSND" ++ (be32 (((D : Nat) : Int) + 8) ++
         (be32 0 ++ (be32 0 ++ (opsData ops ++ tailBytes D)))) := by
       rw [hb]; unfold closedHdr; rw [hpre, ← hprel]
       simp only [List.append_assoc]
@@ -177,7 +248,8 @@ theorem aiff_size_fields (c : Cfg) (k : Kind) (hwf : c.wf) (hk : kindOf c = some
     omega
 
 example : ofBE (((closedBytes exCfg exKind 99 exOps).drop 4).take 4) = 76 ∧
-    ofBE (((closedBytes exCfg exKind 99 exOps).drop (hdrLen exCfg exKind - 12)).take 4) = 20 := by decide +kernel
+    ofBE (((closedBytes exCfg exKind 99 exOps).drop (hdrLen exCfg exKind - 12)).take 4) = 20 ∧
+    ofBE (((closedBytes exU exUKind 0 [.write [1, 2, 3] [] false]).drop (hdrLen exU exUKind - 12)).take 4) = 11 := by decide +kernel
 
 /-! ### the caller's frames field -/
 
@@ -205,7 +277,7 @@ theorem auto_write_is_update (c : Cfg) (k : Kind) (s : St) (enc : List Byte) (pk
 theorem aiff_snapshot_valid (c : Cfg) (k : Kind) (hwf : c.wf) (hk : kindOf c = some k) (stale : Nat) (ops : List WOp)
     (hguard : (snapshotBytes c k stale ops).length < 2 ^ 32) :
     parse (snapshotBytes c k stale ops) =
-      .ok { ch := c.ch, fmt := c.fmtWord, sr := (ten2int (int2ten c.sr)).toNat, frames := (opsData ops).length / c.bw } ∧
+      .ok { ch := c.ch, fmt := c.fmtWord, sr := c.sr, frames := (opsData ops).length / c.bw } ∧
     ∃ hdr, hdr.length = hdrLen c k ∧ snapshotBytes c k stale ops = hdr ++ opsData ops := by
   obtain ⟨_, _, _, fbw, _⟩ := cfg_facts c k hwf.1 hk
   have hbw : 0 < c.bw := Nat.mul_pos fbw hwf.2.1
@@ -221,7 +293,11 @@ theorem aiff_snapshot_valid (c : Cfg) (k : Kind) (hwf : c.wf) (hk : kindOf c = s
     simp only [List.length_append, hhl] at hguard
     have : 54 ≤ hdrLen c k := by unfold hdrLen; split <;> omega
     omega
-  exact parse_hdrRaw c k hwf hk _ _ _ i.pk (opsData ops) hB
+  have := parse_hdrRaw c k hwf hk ((opsData ops).length / c.bw) ((hdrLen c k + (opsData ops).length : Nat) : Int) _ i.pk (opsData ops) [] (by simp) hB
+  have hsr : (ten2int (int2ten c.sr)).toNat = c.sr := by rw [aiff_rate_roundtrip c.sr hwf.2.2.2.1 hwf.2.2.2.2]; simp
+  rw [hsr, List.append_nil] at this
+  unfold snapHdr
+  exact this
 
 example : (snapshotBytes exU exUKind 0 [.write [1, 2, 3] [] false]).length = 75 ∧
     parse (snapshotBytes exU exUKind 0 [.write [1, 2, 3] [] false]) = .ok ⟨1, 0x020010, 8000, 3⟩ := by decide +kernel
